@@ -89,7 +89,8 @@ def r3_ignore_wiring(cx):
     inner = enclosing(c, ast.For)
     outer = enclosing(inner, ast.For) if inner is not None else None
     if inner is None or outer is None:
-        cx.unknown(c, "add_ignore is not inside 'for ctx in contexts: for old in handlers'")
+        cx.bad(c, "every previously recorded handler of each context is told to ignore it: add_ignore runs inside 'for ctx in contexts: for old in <all recorded handlers>' "
+                  "(telling a single remembered handler leaves the ones in between active)", construct=short(stmt_of(c)))
         return
     ctxv, oldv = U(outer.target), U(inner.target)
     cx.require(isinstance(outer.iter, ast.Call) and call_attr(outer.iter) == "_get_ctx_dependencies" and U(outer.iter.args[0]) == comp, outer,
@@ -121,21 +122,42 @@ def r3_ignore_wiring(cx):
     gc = s.func("_get_ctx_dependencies", "C05.R3")
     gp = params(gc)[0]
     loops = [x for x in gc.body if isinstance(x, ast.For)]
-    ok = bool(loops) and isinstance(loops[0].iter, ast.Call) and call_attr(loops[0].iter) == "walk_tree" and U(loops[0].iter.args[0]) == gp and not has_exit(loops[0].body)
-    cx.require(ok, loops[0] if loops else gc, "the contexts an implementation handles are collected over its *transitive* dependency tree (dr.walk_tree): a composite implementation (first_of, head, datasource on datasources) names its context only through its parts",
-               construct="for %s in %s" % (U(loops[0].target), U(loops[0].iter)) if loops else "(no loop)")
-    if loops:
-        tv = U(loops[0].target)
-        adds = [x for x in find_calls(loops[0].body, attr="add")]
-        ok = len(adds) == 1 and U(adds[0].args[0]) == tv and ("issubclass(%s, ExecutionContext)" % tv, True) in guard_texts(adds[0], stop=loops[0])
-        cx.require(ok, adds[0] if adds else loops[0], "every ExecutionContext subclass found in the tree counts as a handled context", construct=short(adds[0]) if adds else "(no add)")
+    comps = [x for x in ast.walk(gc) if isinstance(x, (ast.SetComp, ast.GeneratorExp, ast.ListComp)) and len(x.generators) == 1
+             and isinstance(x.generators[0].iter, ast.Call) and call_attr(x.generators[0].iter) == "walk_tree"]
+    if not loops and comps:
+        # comprehension form: set(c for c in dr.walk_tree(component) if ... issubclass(c, ExecutionContext))
+        g0 = comps[0].generators[0]
+        tv = U(g0.target)
+        ok = U(g0.iter.args[0]) == gp
+        cx.require(ok, comps[0], "the contexts an implementation handles are collected over its *transitive* dependency tree (dr.walk_tree): a composite implementation (first_of, head, datasource on datasources) names its context only through its parts",
+                   construct=short(comps[0], 100))
+        atoms = []
+        for t in g0.ifs:
+            from ..model import _flatten_atom
+            _flatten_atom(t, True, atoms)
+        at = set((U(e), p_) for e, p_ in atoms)
+        extra = at - set([("issubclass(%s, ExecutionContext)" % tv, True), ("inspect.isclass(%s)" % tv, True), ("isinstance(%s, type)" % tv, True)])
+        rets = [r for r in walk_body(gc.body) if isinstance(r, ast.Return)]
+        ok = U(comps[0].elt) == tv and ("issubclass(%s, ExecutionContext)" % tv, True) in at and not extra and len(rets) == 1 and any(x is comps[0] for x in ast.walk(rets[0]))
+        cx.require(ok, comps[0], "every ExecutionContext subclass found in the tree counts as a handled context", construct="filters: %s" % sorted(at))
+    else:
+        ok = bool(loops) and isinstance(loops[0].iter, ast.Call) and call_attr(loops[0].iter) == "walk_tree" and U(loops[0].iter.args[0]) == gp and not has_exit(loops[0].body)
+        cx.require(ok, loops[0] if loops else gc, "the contexts an implementation handles are collected over its *transitive* dependency tree (dr.walk_tree): a composite implementation (first_of, head, datasource on datasources) names its context only through its parts",
+                   construct="for %s in %s" % (U(loops[0].target), U(loops[0].iter)) if loops else "(no loop)")
+        if loops:
+            tv = U(loops[0].target)
+            adds = [x for x in find_calls(loops[0].body, attr="add")]
+            ok = len(adds) == 1 and U(adds[0].args[0]) == tv and ("issubclass(%s, ExecutionContext)" % tv, True) in guard_texts(adds[0], stop=loops[0])
+            cx.require(ok, adds[0] if adds else loops[0], "every ExecutionContext subclass found in the tree counts as a handled context", construct=short(adds[0]) if adds else "(no add)")
     # add_ignore stores per component
     d = cx.repo.module(DR)
     ai = d.func("add_ignore", "C05.R3")
     p = params(ai)
     adds = find_calls(ai.body, attr="add")
-    cx.require(len(adds) == 1 and U(adds[0].func.value) == "IGNORE[%s]" % p[0] and U(adds[0].args[0]) == p[1], ai,
-               "add_ignore(c, i) records i under IGNORE[c]", construct=short(adds[0]) if adds else "(none)")
+    cx.require(len(adds) == 1 and U(adds[0].func.value) == "IGNORE[%s]" % p[0] and U(adds[0].args[0]) == p[1] and not guard_texts(adds[0])
+               and not [r for r in walk_body(ai.body) if isinstance(r, ast.Return) and r.lineno < adds[0].lineno], ai,
+               "add_ignore(c, i) records i under IGNORE[c], unconditionally (a switch that can be flipped back, like the enabled flag, is no substitute)",
+               construct="%s guarded by %s" % (short(adds[0]), sorted(guard_texts(adds[0]))) if adds else "(none)")
 
 
 def r5_context_dependency(cx):
